@@ -1681,12 +1681,19 @@ func c20Validate(x *Ctx) (string, []string, error) {
 						if s, ok := c20StrLit(ce.Args[1]); ok {
 							prefixes = append(prefixes, s)
 						}
+					case "strings.Contains":
+						// a single refused character (e.g. the NUL key separator) extends the blacklist
+						if s, ok := c20StrLit(ce.Args[1]); ok && len([]rune(s)) == 1 {
+							black += s
+						} else {
+							nIf += 100
+						}
 					}
 				}
 				return true
 			})
 		}
-		if nIf != 2 {
+		if nIf != 2 && nIf != 3 {
 			return "", nil, fmt.Errorf("gripql.validate no longer has the shape (ContainsAny blacklist; HasPrefix list): %d if statements", nIf)
 		}
 	}
